@@ -215,7 +215,7 @@ func cmdCheck(args []string) int {
 	}
 	var tagged []string
 	for k, fc := range eng.db.Funcs {
-		if fc.Assumed {
+		if fc.Assumed && len(fc.Proves) == 0 {
 			continue
 		}
 		for _, p := range fc.Props {
